@@ -90,7 +90,11 @@ class UnusedTranslator:
                 ASTType.Aggregate,
             ):
                 for elem in stm.head.elements:
-                    self._add_usage(elem.condition)
+                    if elem.ast_type == ASTType.HeadAggregateElement:
+                        self._add_usage(elem.condition.condition)
+                        self._add_usage_stm(elem.condition.literal)
+                    else:
+                        self._add_usage(elem.condition)
             if stm.ast_type == ASTType.Rule and stm.head.ast_type in (
                 ASTType.Disjunction,
                 ASTType.Aggregate,
